@@ -736,3 +736,61 @@ func GenPaletteC08(g G) Palette {
 	}
 	return p
 }
+
+// GenRedefineFocus draws a scenario plus an input filter aimed at the region
+// of Redefine's planning space that ordinary profiles rarely reach: the
+// target's own parameter types are (mostly) NOT permitted, so planning must go
+// through converters, whose inputs -- interface-typed ones included -- become
+// the fresh inputs of the redefined function; some leaves are pre-supplied.
+func GenRedefineFocus(g G) (*Scenario, []int) {
+	o := DefaultFuncOpts()
+	o.AllowOnce = true
+	pal := GenPalette(g, true, true)
+	// make interface-typed converter inputs likely
+	if g.Pct(70) {
+		it := TypeI0 + g.Int(0, 1)
+		pal.Types = append(pal.Types, it, it)
+	}
+	b := NewBuilder(g, pal, o)
+	b.Sc.Target = GenTarget(g, pal, 2, o)
+	for _, p := range b.Sc.Target.In {
+		b.Produce(p, g.Int(1, 3), 2)
+	}
+	if g.Pct(30) {
+		b.AddReverse(40)
+	}
+	var filter []int
+	// everything a converter takes as input is something the caller can give
+	for i := range b.Sc.Convs {
+		for _, l := range b.Sc.Convs[i].In {
+			if g.Pct(85) {
+				filter = append(filter, l.Type)
+			}
+		}
+	}
+	var kept []Input
+	for _, in := range b.Sc.Inputs {
+		if g.Pct(40) {
+			kept = append(kept, in) // pre-supplied
+		} else {
+			filter = append(filter, in.L.Type)
+		}
+	}
+	b.Sc.Inputs = kept
+	if g.Pct(30) {
+		for _, p := range b.Sc.Target.In {
+			filter = append(filter, p.Type)
+		}
+	}
+	seen := map[int]bool{}
+	var uf []int
+	for t := 0; t < NumTypes; t++ {
+		for _, f := range filter {
+			if f == t && !seen[t] {
+				seen[t] = true
+				uf = append(uf, t)
+			}
+		}
+	}
+	return b.Sc, uf
+}
